@@ -27,7 +27,7 @@ uf = st.floats(-1.0, 1.0, allow_nan=False)
 # ------------------------------------------------------------------ airtovac / vactoair
 @st.composite
 def wave_case(draw):
-    kind = draw(st.sampled_from(['array', 'array', 'pyfloat', 'npscalar', 'zerod', 'quantity-array', 'quantity-scalar', 'array-f4']))
+    kind = draw(st.sampled_from(['array', 'array', 'pyfloat', 'npscalar', 'zerod', 'quantity-array', 'quantity-scalar', 'array-f4', 'array-int']))
     n = 1 if kind in ('pyfloat', 'npscalar', 'zerod', 'quantity-scalar') else draw(st.integers(1, 12))
 
     def one():
@@ -60,6 +60,8 @@ def make_input(kind, w, unit):
         return np.array(w, dtype='f8'), 1.0
     if kind == 'array-f4':
         return np.array(w, dtype='f4'), 1.0
+    if kind == 'array-int':
+        return np.array([int(round(v)) for v in w], dtype='i8'), 1.0       # whole-Angstrom wavelength grids (np.arange)
     if kind == 'quantity-scalar':
         return (w[0] * scale) * U, scale
     return (np.array(w, dtype='f8') * scale) * U, scale
@@ -182,7 +184,7 @@ def filt_case(draw):
     return dict(ntr=ntr, nx=nx, cover=cover, lo=lo, hi=hi, ranges=[list(covers[c]) for c in per_trace], direction=draw(st.sampled_from(['increasing', 'decreasing'])),
                 fam=draw(st.sampled_from(['random', 'linear', 'const'])), seed=draw(st.integers(0, 10 ** 6)), c=draw(st.sampled_from([3.0, -2.5, 1e3, 0.0])),
                 mask=draw(st.sampled_from([None, 'runs', 'runs'])), runs=[[draw(st.integers(0, ntr - 1)), draw(st.integers(1, nx - 30)), draw(st.integers(1, 25))] for _ in range(3)],
-                toair=draw(st.booleans()), wset=draw(st.sampled_from([False, False, True])), alpha=draw(uf), beta=draw(uf), shift=[draw(uf) for _ in range(4)])
+                toair=draw(st.booleans()), wset=draw(st.sampled_from([False, False, True])), maskval=draw(st.sampled_from([1, -1, 7, -2147483648])), alpha=draw(uf), beta=draw(uf), shift=[draw(uf) for _ in range(4)])
 
 
 def filt_body(case):
@@ -218,7 +220,7 @@ def filt_body(case):
     if case['mask']:
         mask = np.zeros((ntr, nx), dtype='i4')
         for t, a, m in case['runs']:
-            mask[t, a:a + m] = 1
+            mask[t, a:a + m] = case.get('maskval', 1)
         kw['mask'] = mask
 
     def run(flux):
@@ -266,7 +268,7 @@ def filt_body(case):
 
 
 def filt_classify(case):
-    return ['cover:' + case['cover'], case['direction'], 'mixed-coverage' if len({tuple(r) for r in case['ranges']}) > 1 else 'same-coverage', 'fam:' + case['fam'], 'mask' if case['mask'] else 'nomask', 'wset' if case['wset'] else 'waveimg',
+    return ['cover:' + case['cover'], case['direction'], 'mixed-coverage' if len({tuple(r) for r in case['ranges']}) > 1 else 'same-coverage', 'fam:' + case['fam'], ('maskval:%d' % case.get('maskval', 1)) if case['mask'] else 'nomask', 'wset' if case['wset'] else 'waveimg',
             'toair' if case['toair'] else 'vacuum']
 
 
